@@ -3,7 +3,7 @@ CONSTANTS
   ItemKinds = {"local", "call", "pcall", "do", "func"}
   MaxTop = 2
   MaxDev = 2
-  DevTypes = {"semi", "range"}
+  DevTypes = {"semi", "tail", "range"}
   WithReturn = FALSE
 INVARIANT Emit
 CHECK_DEADLOCK FALSE
